@@ -129,4 +129,44 @@ theorem get_counterEntries (g : Store) (cs : List Counter) (p k : String)
         have : ((c.pfx == p) && (("" : String) == k)) = false := by simp [hcp]
         simp [this]
 
+/-! ## migration loop -/
+
+theorem encode_decodeInto_fresh (w : Wire) : ∀ n, w.length = n → (∀ x ∈ w, x ≠ some 0) →
+    encode (decodeInto (List.replicate n 0) w) = w := by
+  induction w with
+  | nil => intro n _ _; cases n <;> rfl
+  | cons x xs ih =>
+    intro n hn hx
+    cases n with
+    | zero => simp at hn
+    | succ n =>
+      have hlen : xs.length = n := by simpa using hn
+      have hxs : ∀ y ∈ xs, y ≠ some 0 := fun y hy => hx y (List.mem_cons_of_mem _ hy)
+      have ih' := ih n hlen hxs
+      cases x with
+      | none =>
+        simp only [List.replicate_succ, decodeInto, encode, List.map_cons, if_true]
+        unfold encode at ih'; rw [ih']
+      | some v =>
+        have hv : v ≠ 0 := by
+          intro h; exact hx (some v) (List.mem_cons_self) (by rw [h])
+        simp only [List.replicate_succ, decodeInto, encode, List.map_cons, hv, if_false]
+        unfold encode at ih'; rw [ih']
+
+/-- a record all of whose fields are present on the wire decodes alike into any destination of the right length -/
+theorem decodeInto_full (w : Wire) : ∀ acc : List Nat, acc.length = w.length → (∀ x ∈ w, x ≠ none) →
+    decodeInto acc w = w.map (·.getD 0) := by
+  induction w with
+  | nil => intro acc _ _; cases acc <;> rfl
+  | cons x xs ih =>
+    intro acc hl hx
+    cases acc with
+    | nil => simp at hl
+    | cons d ds =>
+      have hl' : ds.length = xs.length := by simpa using hl
+      have hxs : ∀ y ∈ xs, y ≠ none := fun y hy => hx y (List.mem_cons_of_mem _ hy)
+      cases x with
+      | none => exact absurd rfl (hx none List.mem_cons_self)
+      | some v => simp only [decodeInto, List.map_cons, Option.getD_some, ih ds hl' hxs]
+
 end Comdex.Genesis
